@@ -945,16 +945,17 @@ func (a *Agent) runWSICMPSender(session *icmpWebSocketSession) {
 			streamID := session.StreamID
 			session.mu.RUnlock()
 
-			var ciphertext []byte
-			var err error
-			if sessionKey != nil {
-				ciphertext, err = sessionKey.Encrypt(req.Payload)
-				if err != nil {
-					a.logger.Debug("failed to encrypt ICMP payload", "error", err)
-					continue
-				}
-			} else {
-				ciphertext = req.Payload
+			// Fail closed: never send an echo payload without an end-to-end
+			// session key, every transit agent could read it.
+			if sessionKey == nil {
+				a.logger.Debug("dropping ICMP echo: session has no session key",
+					logging.KeyStreamID, streamID)
+				continue
+			}
+			ciphertext, err := sessionKey.Encrypt(req.Payload)
+			if err != nil {
+				a.logger.Debug("failed to encrypt ICMP payload", "error", err)
+				continue
 			}
 
 			echo := &protocol.ICMPEcho{
